@@ -83,5 +83,6 @@ for _k, _groups in _GOLITE.items():
     _e["technique"] = _e.get("technique", "") + "; decision functions translated from the Go source on every run (go/ast -> deep-embedded Gallina AST) and proved equal to the model's predicates"
 
 # property files that state theorems over the translated code need the translation's files built with them
-for _k, _extra in {"C10": ["Model/GoLite.v", "Check/GoLiteTactics.v", "Check/GoLiteQueue.v", "Proofs/GoLiteQueueRefine.v"]}.items():
+for _k, _extra in {"C10": ["Model/GoLite.v", "Check/GoLiteTactics.v", "Check/GoLiteQueue.v", "Proofs/GoLiteQueueRefine.v"],
+                   "C03": ["Model/GoLite.v", "Check/GoLiteTactics.v", "Check/GoLiteAdmit.v", "Proofs/GoLiteAdmitRefine.v"]}.items():
     REGISTRY[_k]["coq_files"] = list(REGISTRY[_k].get("coq_files", [])) + [f for f in _extra if f not in REGISTRY[_k].get("coq_files", [])]
